@@ -7,7 +7,8 @@ superset with two extra variables) the compiled callables are evaluated at two f
 derivatives obtained independently: Richardson-extrapolated central differences of the oracle's own evaluator
 (native/oracle.py), entries where the oracle reports a singularity being skipped.
 
-Bounds: the pool below (every node kind x a few contexts, vectors of length 3, a 2x2 matrix), 4 variable lists, 2 points.
+Bounds: the pool below (every node kind x a few contexts, vectors of length 3, a 2x2 matrix), 6 variable lists (own order,
+reversed, seeded permutation, superset, two supersets with a foreign variable between permuted positions), 2 points.
 """
 from __future__ import annotations
 
@@ -72,7 +73,10 @@ POINTS = [dict(ENVS[0], **{"X[0,0]": 0.6, "X[0,1]": 1.2, "X[1,0]": 0.8, "X[1,1]"
           dict(ENVS[1], **{"X[0,0]": 1.4, "X[0,1]": 0.5, "X[1,0]": 2.1, "X[1,1]": 0.9, "u1": 1.1, "u2": 0.7})]
 
 
-def var_lists(e, rng):
+INDEXED_KINDS = ("VectorPowerSum", "VectorUnarySum", "VectorSum", "DotProduct", "LinearCombination", "QuadraticForm", "L2Norm", "L1Norm")
+
+
+def var_lists(e, rng, exhaustive=False):
     names = sorted(O.variables_of(e))
     if not names:
         names = ["x"]
@@ -81,8 +85,26 @@ def var_lists(e, rng):
     base = [mk(n) for n in names]
     perm = list(base)
     rng.shuffle(perm)
-    return [("own", base), ("reversed", list(reversed(base))), ("permuted", perm),
-            ("superset", [mk("u1")] + list(reversed(base)) + [mk("u2")])]
+    # a foreign variable in the middle of a non-monotone arrangement: the positions of the expression's variables are neither
+    # sorted nor contiguous, and a foreign column lies between them
+    rot = base[1:] + base[:1] if len(base) > 1 else list(base)
+    inter = rot[:1] + [mk("u1")] + list(reversed(rot[1:]))
+    inter2 = list(reversed(base))[:-1] + [mk("u2")] + list(reversed(base))[-1:]
+    out = [("own", base), ("reversed", list(reversed(base))), ("permuted", perm),
+           ("superset", [mk("u1")] + list(reversed(base)) + [mk("u2")]), ("interleaved", inter), ("interleaved2", inter2)]
+    if exhaustive and 2 <= len(base) <= 3:
+        # nodes with index-array fast paths: every arrangement of the expression's variables, alone and with one foreign
+        # variable at every position (exhaustive for this size: any bug in "are the positions sorted / contiguous / complete"
+        # tests shows up in one of them)
+        import itertools
+        seen = {tuple(v.name for v in l) for _, l in out}
+        for items in (base, base + [mk("u1")]):
+            for pm in itertools.permutations(items):
+                key = tuple(v.name for v in pm)
+                if key not in seen:
+                    seen.add(key)
+                    out.append(("arrangement " + ",".join(key), list(pm)))
+    return out
 
 
 def _all_vars(e):
@@ -129,7 +151,7 @@ def main():
         except Exception:       # noqa: BLE001
             stats["unbuildable"] += 1
             continue
-        for vname, V in var_lists(e, rng):
+        for vname, V in var_lists(e, rng, exhaustive=fname.split("|")[0].split(":")[0] in INDEXED_KINDS):
             names = [v.name for v in V]
             if which == "jacobian":
                 fns = []
